@@ -177,6 +177,7 @@ def check_class(prog, cd, rep, cname, amap, items, c):
     fq = f"{cname}.{f.name}"
     adder_channel_rules(rep, mod, fq, f, amap, sn)
     rep.attempt(bulk_delegation, prog, rep, cname, c, f)
+    rep.attempt(pair_view, prog, rep, cname, c, amap, items)
     # 5 container-kind: decoder installs
     u = cd.units.get(cname)
     if u is None:
@@ -262,6 +263,35 @@ def check_class(prog, cd, rep, cname, amap, items, c):
 
 # bulk operations of the channel-mapped classes, confirmed by reading (class -> (method, kind, what it does per item, index of
 # the items parameter, index of the channels parameter | "pairs" (the items ARE (channel, item) pairs) | None))
+def pair_view(prog, rep, cname, c, amap, items, rule="pair-view"):
+    """A public accessor that hands out (channel, item) pairs takes the channel from the channel list: zip(<map>, <items>) in that
+    order - a position (enumerate) or any other sequence in the channel's place makes the bulk read-modify-write idiom
+    (`blk.xs = [p for p in blk.xs if ..]`) install wrong channels."""
+    from ..facts import return_leaves
+    mod = c.module.path.name
+    n = 0
+    for f in c.all_funcs():
+        if f.kind not in ("getter", "method") or (f.kind == "method" and f.name != "__iter__"):
+            continue
+        sn = f.self_name or "self"
+        for guards, v, pe in return_leaves(f.node):
+            if v is None:
+                continue
+            pairs = [x for x in ast.walk(v) if isinstance(x, ast.Call) and norm(x.func) in ("zip", "enumerate")
+                     and any(is_self_attr(a, items, sn) or (isinstance(a, ast.Subscript) and is_self_attr(a.value, items, sn)) for a in x.args)]
+            for x in pairs:
+                n += 1
+                fq = f"{cname}.{f.name}"
+                good = norm(x.func) == "zip" and len(x.args) == 2 and is_self_attr(x.args[0], amap, sn) and is_self_attr(x.args[1], items, sn) and not x.keywords
+                if good:
+                    rep.ok(rule, f"{fq}: pairs are zip({sn}.{amap}, {sn}.{items})", nontrivial=True)
+                else:
+                    rep.fail(rule, mod, fq, pe.node if pe.node is not None else f.node,
+                             f"`{norm(x)}` pairs the items with something other than their channels (`{sn}.{amap}`, first): the public (channel, item) view no longer shows the channel each item was given",
+                             construct=f"{fq} pairs {norm(x)}")
+    return n
+
+
 BULK = {
     "ForcePlatformsCalibrationDataBlock": [("__init__", "method", "add", 0, None), ("add_platforms", "method", "add", 0, 1),
                                            ("remove_platforms", "method", "remove", 0, None), ("platforms", "setter", "add", 0, "pairs")],
